@@ -91,13 +91,6 @@ end Pegnet
 
 namespace Pegnet
 
-theorem M.bind_ok {σ α β} {m : M σ α} {f : α → M σ β} {s s' : σ} {b : β}
-    (h : (m >>= f) s = .ok b s') : ∃ a s1, m s = .ok a s1 ∧ f a s1 = .ok b s' := by
-  rw [M.bind_run] at h
-  cases hm : m s with
-  | ok a s1 => rw [hm] at h; exact ⟨a, s1, rfl, h⟩
-  | fail e s1 => rw [hm] at h; cases h
-
 theorem insertRelation_marks (hash : Hash) (a : Addr) (i : Nat) (t c : Bool) (s : DB) :
     ∃ s', insertRelation hash a i t c s = .ok () s' ∧ s'.isReplay hash = true := by
   unfold insertRelation M.guarded
